@@ -125,7 +125,14 @@ let history_step name (gs : string -> string) (gi : string -> int) (outs : strin
       else if rows_model = -7 then bad "model-panics-implementation-did-not"
       else if rows_model <> oi 0 then bad (Printf.sprintf "rows=%d-model=%d" (oi 0) rows_model)
       else if not (events_ok evs) then bad "event-fails-check_C06"
-      else []
+      else begin
+        (* the capacity-aware step (FpCap.cstep): same kernel entry, extents of the sequence matrix = its allocation *)
+        let (cpost, cevs) = cstep (z k) pstF pstU { c_h = pre; c_scap = z (gi "scap") } (CBase (op, z 0)) in
+        if List.length cevs <> List.length evs || iz cpost.c_scap <> gi "scap" then bad "capacity-model-differs-from-history-model"
+        else if gi "scap" < gi "SR" then bad (Printf.sprintf "capacity=%d-below-rows=%d" (gi "scap") (gi "SR"))
+        else if not (events_ok cevs) then bad "event-outside-the-allocation"
+        else []
+      end
   | ("enc" | "encuse") ->
       let a = match gs "pl", gs "arm" with
         | "a", _ -> AAvx2 | "s", _ -> ASse2 | "d", "avx2" -> AAvx2 | _ -> AGeneric in
@@ -244,11 +251,9 @@ let handle_record (r : string) : issue list =
                | "avx2", _ -> ("score_u8_avx2_shuffle", wrap_score_u8_avx2 true p)
                | "sse2", 4 -> ("score_sse2", wrap_score_sse2 true (z c) p)
                | _ -> ("score_generic", wrap_score_generic p) in
-             let cap b = match b with
-               | 0 -> gi "scap" * gi "sst"
-               | 2 -> gi "pcap" * gi "pst" * es
-               | 1 -> oi 1 * gi "dst" * es
-               | _ -> 0 in
+             (* allocated bytes of the three matrices: the extracted FpCap.alloc_score on the observed capacities
+                (sequence and scoring matrix before the call, score matrix after it) *)
+             let cap b = iz (alloc_score (z es) p (z (gi "scap")) (z (gi "pcap")) (z (max (oi 1) 0)) (nat_of_int b)) in
              if (not panicked) && List.length outs > 2 && oi 2 >= 0 then
                add [Invariant (Printf.sprintf "write-past-the-owned-rows(inside-capacity):%s-damaged-canary-at-byte-%d(%s)" name (oi 2) params)];
              match guard_cmp g ~rows_entered:(gi "b" - gi "a") ~observed_rows:(oi 0) with
@@ -464,7 +469,13 @@ let () =
         let guards = List.filter_map (function Guard d -> Some d | _ -> None) issues in
         let model_txt = match model_bad with
           | [] -> "model=clean" | (d, _) :: _ -> "model-predicts=" ^ d in
-        if starts "MSAN" msan || starts "CRASH" msan then
+        let msan_blind = starts "MSAN(not-seen-written" msan in
+        let real_error = starts "ASAN" asan || starts "CRASH" asan || starts "CRASH" dbg || starts "ASAN" rel || starts "CRASH" rel || starts "CRASH" dbg2 in
+        if msan_blind && not real_error then
+          (* score / striped cells filled by non-temporal stores only: invisible to MemorySanitizer — the
+             initialisation tie is broken (the wrappers no longer default-initialise the rows), not the property *)
+          Printf.printf "%s DIFF initialisation-not-confirmed:msan=%s(cells-written-by-non-temporal-stores-only-are-invisible-to-the-sanitizer)\n" id msan
+        else if (starts "MSAN" msan && not msan_blind) || starts "CRASH" msan then
           Printf.printf "%s PROPFAIL uninitialised-memory msan=%s asan=%s dbg=%s\n" id msan asan dbg
         else if starts "ASAN" asan || starts "CRASH" asan || starts "CRASH" dbg || starts "ASAN" rel || starts "CRASH" rel || starts "CRASH" dbg2 then
           Printf.printf "%s PROPFAIL memory-error asan=%s rel=%s dbg=%s dbg2=%s %s%s\n" id asan rel dbg dbg2 model_txt
